@@ -48,6 +48,98 @@ class LockWatch:
                 self.unlocked.append((method, th, stack[-8:]))
 
 
+class WatchedRLock:
+    """Stands in for SyncState.lock.  Counts, per thread, how deep the lock is held; inside an *atomic step* (one entry
+    synchronisation, one event application - marked by wrappers on SyncManager._sync_one_entry and
+    EventManager._process_event) the lock must not be given up completely and then taken again: that would let another
+    thread's step run in the middle of this one.  The observation does not depend on another thread actually using the gap."""
+
+    def __init__(self, real):
+        self.real = real
+        self.tl = threading.local()
+        self.problems = []
+        self.acquires = 0
+        self.meta = threading.Lock()
+
+    def _d(self):
+        if not hasattr(self.tl, "depth"):
+            self.tl.depth, self.tl.step, self.tl.dropped = 0, 0, False
+        return self.tl
+
+    def acquire(self, *a, **kw):
+        r = self.real.acquire(*a, **kw)
+        if r:
+            t = self._d()
+            if t.depth == 0 and t.step > 0 and t.dropped:
+                with self.meta:
+                    if len(self.problems) < 5:
+                        stack = [f.name for f in traceback.extract_stack(limit=14)][:-1]
+                        self.problems.append((threading.current_thread().name, stack[-9:]))
+            t.depth += 1
+            if t.step > 0:
+                t.held_in_step = True
+            self.acquires += 1
+        return r
+
+    def release(self):
+        t = self._d()
+        t.depth -= 1
+        if t.depth == 0 and t.step > 0 and t.held_in_step:
+            t.dropped = True
+        self.real.release()
+
+    __enter__ = acquire
+
+    def __exit__(self, *a):
+        self.release()
+
+    def _is_owned(self):
+        return self.real._is_owned()                # pylint: disable=protected-access
+
+    def step_enter(self):
+        t = self._d()
+        if t.step == 0:
+            t.dropped = False
+            t.held_in_step = t.depth > 0
+        t.step += 1
+
+    def step_exit(self):
+        t = self._d()
+        t.step -= 1
+        if t.step == 0:
+            t.dropped = False
+
+    def note_held(self):
+        t = self._d()
+        if t.step > 0 and t.depth > 0:
+            t.held_in_step = True
+
+
+def install_step_tap():
+    """marks atomic steps for WatchedRLock (class-level wrappers, active only while a watched lock is installed)"""
+    if _tap.get("steps_installed"):
+        return
+    from cloudsync.sync.manager import SyncManager
+
+    def wrap(cls, name):
+        orig = getattr(cls, name)
+
+        def w(self, *a, **kw):
+            lk = getattr(self.state, "lock", None)
+            if not isinstance(lk, WatchedRLock):
+                return orig(self, *a, **kw)
+            lk.step_enter()
+            try:
+                return orig(self, *a, **kw)
+            finally:
+                lk.step_exit()
+        w.__name__ = name
+        setattr(cls, name, w)
+    wrap(SyncManager, "_sync_one_entry")
+    wrap(EventManager, "_process_event")
+    _tap["steps_installed"] = True
+
+
 def install_state_tap():
     if _tap["installed"]:
         return
@@ -71,10 +163,12 @@ def install_state_tap():
 
 
 class Yielder:
-    """sys.monitoring LINE callback: sleep(0) with probability q on lines of cloudsync/* (other code objects disabled)"""
+    """sys.monitoring LINE callback: sleep(0) with probability q on lines of cloudsync/* (other code objects disabled).
+    only=<file suffix>: restrict to one source file; pauses=(...): sleep durations to choose from instead of 0."""
     TOOL = 4
 
-    def __init__(self, q, seed):
+    def __init__(self, q, seed, only=None, pauses=(0,)):
+        self.only, self.pauses = only, pauses
         self.q = q
         self.rng = random.Random(seed)
         self.lines = 0
@@ -93,12 +187,12 @@ class Yielder:
 
         def cb(code, line):
             fn = code.co_filename
-            if not fn.startswith(repo) or "/tests/" in fn:
+            if not fn.startswith(repo) or "/tests/" in fn or (self.only and not fn.endswith(self.only)):
                 return mon.DISABLE
             self.lines += 1
             if self.rng.random() < self.q:
                 self.yields += 1
-                time.sleep(0)
+                time.sleep(self.rng.choice(self.pauses))
             return None
         mon.register_callback(self.TOOL, mon.events.LINE, cb)
         mon.set_events(self.TOOL, mon.events.LINE)
@@ -174,6 +268,9 @@ def run_threaded(case, seed, smart=False, duration=1.2, yield_q=0.02, poll_busy=
 
     cs = TSync(provs, roots, storage=storage, sleep=None)
     cs.aging = 0
+    install_step_tap()
+    wl = WatchedRLock(cs.state.lock)
+    cs.state.lock = wl
     probs = []
     lw = LockWatch()
     stats = {}
@@ -329,6 +426,9 @@ def run_threaded(case, seed, smart=False, duration=1.2, yield_q=0.02, poll_busy=
         stats["mutations"] = {"%s@%s" % k: v for k, v in lw.by.items()}
         for u in lw.unlocked:
             probs.append(("state_mutated_without_the_state_lock",) + u)
+        for u in wl.problems:
+            probs.append(("state_lock_dropped_and_retaken_inside_one_atomic_step",) + u)
+        stats["lock_acquisitions_watched"] = wl.acquires
         # deterministic quiescence with a fresh engine over the same providers and storage
         for p in provs:
             if not p.connected:
@@ -456,3 +556,83 @@ def events_handoff_round(seed, n_ops=150, yield_q=0.15):
         probs.append(("provider_event_delivered_to_no_consumer", missing[:5], "of", last - first))
     return probs, {"events": last - first, "to_loop": len(got[0]), "to_busy": len(got[1]), "both": len(got[0] & got[1]),
                    "lines": yl.lines, "yields": yl.yields}
+
+
+def walk_handoff_round(seed, n_files=40, yield_q=0.15):
+    """CloudSync.walk() is called by an application thread while the engine's threads run: every walk event it queues must
+    be processed.  The files exist before the engine is created, so nothing but the walk can make the engine notice them;
+    afterwards a fresh engine (no walk) is stepped to quiescence and every file must be on the other side."""
+    rng = random.Random(seed)
+    flav = rng.choice((("o", "o"), ("p", "o"), ("o", "p")))
+    provs = (MockProvider(flav[0] == "p", True), MockProvider(flav[1] == "p", True))
+    for p in provs:
+        p.connect({"key": "val"})
+    roots = ("/local", "/remote")
+    provs[0].mkdir("/local")
+    provs[1].mkdir("/remote")
+    names = []
+    storage = S.MockStorage({})
+    cs = cloudsync.CloudSync(provs, roots, storage=storage, sleep=None)
+    cs.aging = 0
+    # one pass of every loop (start-up walk, cursor initialisation), then the files are created and their events consumed
+    # here: only the application's walk can reveal them to the engine
+    cs.smgr.run(until=lambda: True, sleep=0)
+    for m in cs.emgrs:
+        m.run(until=lambda: True, sleep=0)
+    for i in range(n_files):
+        nm = "/local/w%d.txt" % i
+        provs[0].create(nm, io.BytesIO(b"walk-%d" % i))
+        names.append(nm)
+    for _ in provs[0].events():
+        pass
+    # a listing that takes time, as a real provider's does: the event loop catches up with the walker again and again
+    orig_walk = provs[0].walk
+
+    def slow_walk(*a, **kw):
+        for e in orig_walk(*a, **kw):
+            time.sleep(rng.random() * 0.004)
+            yield e
+    provs[0].walk = slow_walk
+    old_si = sys.getswitchinterval()
+    yl = Yielder(yield_q, rng.getrandbits(32), only="/cloudsync/event.py", pauses=(0, 0.0001, 0.0004))
+    errs = []
+    try:
+        sys.setswitchinterval(1e-6)
+        yl.start()
+        cs.start()
+
+        def app():
+            try:
+                time.sleep(rng.random() * 0.01)
+                cs.walk(side=0)
+            except Exception as e:      # noqa
+                errs.append((type(e).__name__, str(e)[:100]))
+        t = threading.Thread(target=app, name="app-walk")
+        t.start()
+        t.join(60)
+        t_end = time.time() + 0.6
+        while time.time() < t_end:
+            time.sleep(0.05)
+    finally:
+        yl.stop()
+        sys.setswitchinterval(old_si)
+        cs.stop(forever=True, wait=True)
+    for p in provs:
+        if not p.connected:
+            p.connect({"key": "val"})
+    cs2 = cloudsync.CloudSync(provs, roots, storage=storage, sleep=None)
+    cs2.aging = 0
+    used = quiesce(cs2, rng)
+    probs = []
+    if errs:
+        probs.append(("walk_raised", errs[:2]))
+    if used is None:
+        probs.append(("not_quiescent_after_threads_stopped",))
+    else:
+        missing = [n for n in names if provs[1].info_path("/remote/" + n.rsplit("/", 1)[1]) is None]
+        if missing:
+            probs.append(("walk_event_never_processed", missing[:4], "of", n_files))
+    for p in provs:
+        EventManager._provider_guard.remove(p)      # pylint: disable=protected-access
+    cs2.done()
+    return probs, {"files": n_files, "lines": yl.lines, "yields": yl.yields, "flavour": "".join(flav)}
